@@ -27,20 +27,29 @@ structure Low (E : Env U π) (rank : UNT U → Nat) (r B : Nat) : Prop where
 
 /-! ### the argument loop of `__add_successors_to_heap__` -/
 
+/-- without filter nothing is ever deleted -/
+theorem Base.nodel {s : St U π} (hb : Base E s) (hnf : ∀ p, E.filter p = true) : s.deleted = [] := by
+  apply List.eq_nil_iff_forall_not_mem.mpr
+  intro q hq
+  have := hb.delF q hq
+  rw [hnf] at this; cases this
+
 /-- the precondition of the nested query -/
 theorem loop_pre_query (H : OHyp E rank Good) {s : St U π} {F : Sym} {args : List Prog} {nt : UNT U} {v : List (UNT U)}
     {i : Nat} {ai : Prog} {si : UNT U} (hbase : Base E s) (hko : KeyOK E nt F args v)
     (hpre : OPre E rank (.addLoop F args nt v (i + 1)) s) (hai : args[i]? = some ai) (hsi : v[i]? = some si) :
     rank si < rank nt ∧ OPre E rank (.query si (some ai)) s := by
-  obtain ⟨h1, h2, h3, h4, h5⟩ := hpre
+  obtain ⟨h1, h2, hseen, hlive, h4, h5⟩ := hpre
   obtain ⟨w, hw⟩ := hko.1
   have hrk : rank si < rank nt := H.acyclic nt F v w hw si (List.mem_of_getElem? hsi)
-  have hseen : Tree.node F args ∈ s.seenOf nt := h3.seen hbase.sinv
   have hkp : Popped s si ai := h2.1.args F args v hseen h5 i ai si hai hsi
-  refine ⟨hrk, h1.mono (Nat.le_of_lt hrk), ?_, fun k hk => by cases hk; exact hkp⟩
-  rcases h1 si hrk with hu | hn
-  · exact Or.inl hu
-  · exact Or.inr ⟨hn.1, hn.2.2⟩
+  obtain ⟨x0, hx0⟩ := h2.1.closed F v w hw si (List.mem_of_getElem? hsi)
+  have hsi_full : Full E rank s si := by
+    rcases h1 si hrk with hu | hn
+    · rw [hu.2.2.1] at hx0; cases hx0
+    · exact hn
+  exact ⟨hrk, h1.mono (Nat.le_of_lt hrk), Or.inr ⟨hsi_full.1, hsi_full.2.2⟩, fun k hk => by cases hk; exact hkp,
+    fun e0 => absurd e0 hsi_full.2.1⟩
 
 /-- the state after the nested query: what the loop body needs -/
 theorem loop_after_query (H : OHyp E rank Good) {s s1 : St U π} {F : Sym} {args : List Prog} {nt : UNT U}
@@ -48,14 +57,14 @@ theorem loop_after_query (H : OHyp E rank Good) {s s1 : St U π} {F : Sym} {args
     (hpre : OPre E rank (.addLoop F args nt v (i + 1)) s) (hai : args[i]? = some ai) (hsi : v[i]? = some si)
     (hq : Big E (.query si (some ai)) s s1 (.prog r)) :
     Base E s1 ∧ Below E rank (rank nt) s1 ∧ NTInv E s1 nt ∧ CInv E rank s1 nt (some (Tree.node F args)) (i + 1) ∧
-    AList.lookup (nt, Tree.node F args) s1.keys = some v ∧ Popped s1 nt (Tree.node F args) ∧
+    AList.lookup (nt, Tree.node F args) s1.keys = some v ∧ Tree.node F args ∈ s1.seenOf nt ∧ s1.succOf nt ≠ [] ∧
     (∀ x, Popped s1 nt x → LE E nt x (Tree.node F args)) ∧ si ≠ nt ∧
     (∀ q, r = some q → Popped s1 si q ∧ LE E si ai q) ∧
     (∀ q, r = some q → AList.lookup (some ai) (s1.succOf si) = some q) ∧
     (r = none → s1.initS.contains si = true ∧ s1.heapOf si = [] ∧ AList.lookup (some ai) (s1.succOf si) = none) ∧
     (∀ (j : Nat) (aj : Prog) (sj : UNT U), args[j]? = some aj → v[j]? = some sj → Popped s1 sj aj) := by
   obtain ⟨hrk, hqpre⟩ := loop_pre_query H hbase hko hpre hai hsi
-  obtain ⟨h1, h2, h3, h4, h5⟩ := hpre
+  obtain ⟨h1, h2, hseen, hlive, h4, h5⟩ := hpre
   have hne : si ≠ nt := by intro e; rw [e] at hrk; exact Nat.lt_irrefl _ hrk
   obtain ⟨hbase1, hst1, hfr1, hnpost, _, hkept1⟩ := big_all H hq hbase trivial trivial
   have hkept1' : ∀ sj, Kept s s1 sj := fun sj => hkept1 sj (by simp [Call.inner])
@@ -64,10 +73,9 @@ theorem loop_after_query (H : OHyp E rank Good) {s s1 : St U π} {F : Sym} {args
   have hsame : Same s s1 nt := hfr1' nt (Nat.le_of_lt hrk) (by intro e; cases e; exact hne rfl)
   have hpop1 : ∀ x, Popped s1 nt x ↔ Popped s nt x := by intro x; unfold Popped; rw [hsame.succ]
   have hr1 : ∀ q, r = some q → AList.lookup (some ai) (s1.succOf si) = some q := fun q hq' => hnpost q hq'
-  have hseen : Tree.node F args ∈ s.seenOf nt := h3.seen hbase.sinv
   refine ⟨hbase1, h1.merge hfr1' hst1 hkept1' a1 a2, h2.1.transfer hsame hst1,
-    h2.2.transfer hsame hst1 (fun sj _ => hkept1' sj), by rw [hsame.keys]; exact h5, (hpop1 _).mpr h3,
-    fun x hx => h4 x ((hpop1 x).mp hx), hne, ?_, hr1, ?_, ?_⟩
+    h2.2.transfer hsame hst1 (fun sj _ => hkept1' sj), by rw [hsame.keys]; exact h5, by rw [hsame.seen]; exact hseen,
+    by rw [hsame.succ]; exact hlive, fun x hx => h4 x ((hpop1 x).mp hx), hne, ?_, hr1, ?_, ?_⟩
   · intro q hq'
     subst hq'
     exact ⟨⟨_, hr1 q rfl⟩, a4 q rfl ai rfl⟩
@@ -138,16 +146,16 @@ theorem addLoop_total (H : OHyp E rank Good) {B : Nat} {nt : UNT U} (Lw : Low E 
       obtain ⟨res, hres⟩ := Lw.query _ hrk (hclosed F v w hw _ (List.mem_of_getElem? hsi)) n s _ (by omega) hbase hc hqpre
       obtain ⟨s1, r⟩ := res
       have hq := big_of_query E hres
-      obtain ⟨hbase1, hbel1, hn1, hcinv1, hkey1, hpp1, hlat1, hne, hr, hr1, hr2, hargs⟩ :=
+      obtain ⟨hbase1, hbel1, hn1, hcinv1, hkey1, hseen1, hlive1, hlat1, hne, hr, hr1, hr2, hargs⟩ :=
         loop_after_query H hbase hko hpre hai hsi hq
       have hc1 := (big_cacheC E hk hq hc).1
       obtain ⟨s3, hs3⟩ := pushStep_total H r hbase1 hc1 hko hai hsi (fun q hq' => (hr q hq').1) hargs
-      obtain ⟨hbase3, hn3, hsucc3, ho3, hst3, hkey3, hc3⟩ := hn1.pushStep H hbase1 hko hkey1 hpp1 hlat1 hai hsi hne hr
-        hcinv1 hr1 hr2 hs3
+      obtain ⟨hbase3, hn3, hsucc3, ho3, hst3, hkey3, hc3, hseen3⟩ := hn1.pushStep H hbase1 hko hkey1 hseen1 hlive1 hlat1 hai hsi
+        hne hr hcinv1 hr1 hr2 hs3
       have hbel3 : Below E rank (rank nt) s3 := hbel1.only ho3 hst3 (Nat.le_refl _)
       have hpop3 : ∀ x, Popped s3 nt x ↔ Popped s1 nt x := by intro x; unfold Popped; rw [hsucc3]
       obtain ⟨s', hs'⟩ := ih n s3 (by omega) (by omega) hbase3 (hc1.pushStep E hk hs3).1
-        ⟨hbel3, ⟨hn3, hc3⟩, (hpop3 _).mpr hpp1, fun x hx => hlat1 x ((hpop3 x).mp hx), hkey3⟩
+        ⟨hbel3, ⟨hn3, hc3⟩, hseen3 _ hseen1, by rw [hsucc3]; exact hlive1, fun x hx => hlat1 x ((hpop3 x).mp hx), hkey3⟩
       refine ⟨s', ?_⟩
       unfold addLoop
       simp only [hai, hsi, hres]
@@ -159,10 +167,10 @@ theorem addLoop_total (H : OHyp E rank Good) {B : Nat} {nt : UNT U} (Lw : Low E 
 
 /-! ### `query` on an initialised non-terminal -/
 
-theorem popLoop_total (H : OHyp E rank Good) {L Al A : Nat} (T : THyp E L Al A) {B : Nat} {nt : UNT U}
-    (Lw : Low E rank (rank nt) B) (n : Nat) (s : St U π) (key : Option Prog) (hn : B + A + 3 ≤ n) (hbase : Base E s)
-    (hc : CacheC s) (hnpre : AList.lookup key (s.succOf nt) = none) (hpre : OPre E rank (.popLoop nt key) s) :
-    ∃ res, popLoop E n s nt key = some res := by
+theorem popLoop_total (H : OHyp E rank Good) (hnf : ∀ p, E.filter p = true) {L Al A : Nat} (T : THyp E L Al A) {B : Nat}
+    {nt : UNT U} (Lw : Low E rank (rank nt) B) (n : Nat) (s : St U π) (key : Option Prog) (hn : B + A + 3 ≤ n)
+    (hbase : Base E s) (hc : CacheC s) (hnpre : AList.lookup key (s.succOf nt) = none)
+    (hpre : OPre E rank (.popLoop nt key) s) : ∃ res, popLoop E n s nt key = some res := by
   cases n with
   | zero => omega
   | succ n =>
@@ -174,33 +182,36 @@ theorem popLoop_total (H : OHyp E rank Good) {L Al A : Nat} (T : THyp E L Al A) 
       simp only
       have hdel : (s.setHeap nt h').deleted.contains e.2 = false := by
         show s.deleted.contains e.2 = false
-        rw [hbase.nodel]; rfl
+        rw [hbase.nodel hnf]; rfl
       simp only [hdel, Bool.false_eq_true, if_false]
-      obtain ⟨h1, h2, h3⟩ := hpre
+      obtain ⟨h1, h2, h3, _⟩ := hpre
       obtain ⟨hbase0, hst0, ho0⟩ := hbase.popTake H nt key e h' hp hnpre
       obtain ⟨n0, p0, l0, le0⟩ := h2.1.popTake H hbase key e h' hp hnpre h3
       have c0 : CInv E rank (s.popTake nt key e h') nt (some e.2) (arity e.2) :=
         h2.2.popTake hbase key e h' hp hnpre _ (by intro F args he; rw [he]; exact Nat.le_refl _)
       have hb0 : Below E rank (rank nt) (s.popTake nt key e h') := h1.only ho0 hst0 (Nat.le_refl _)
       have hc0 : CacheC (s.popTake nt key e h') := hc.congr (fun _ => rfl) (CacheGrow.refl _)
+      have hlive0 : (s.popTake nt key e h').succOf nt ≠ [] := by
+        obtain ⟨k, hk⟩ := p0
+        intro e'; rw [e'] at hk; cases hk
       have hsucc : ∃ s', addSucc E n (s.popTake nt key e h') e.2 nt = some s' := by
         cases n with
         | zero => omega
         | succ n =>
+          have hseen0 := p0.seen hbase0.sinv
           rcases hprog : e.2 with ⟨F, kids⟩
-          rw [hprog] at p0 c0 l0
+          rw [hprog] at hseen0 c0 l0
           cases kids with
           | nil => exact ⟨_, rfl⟩
           | cons a as =>
-            have hseen : Tree.node F (a :: as) ∈ (s.popTake nt key e h').seenOf nt := p0.seen hbase0.sinv
-            obtain ⟨v, hv⟩ := c0.keyed _ hseen
+            obtain ⟨v, hv⟩ := c0.keyed _ hseen0
             have hko := hbase0.sinv.keys_ok nt F (a :: as) v hv
             obtain ⟨w, hw⟩ := hko.1
             have hA := T.arity nt F v w hw
             have hlen := derList_length E _ _ hko.2
             simp only [addSucc, hv]
             exact addLoop_total H Lw (fun F v w hm => T.closed nt F v w hm) F (a :: as) v hko (a :: as).length n _
-              (by rw [hlen]; omega) (Nat.le_refl _) hbase0 hc0 ⟨hb0, ⟨n0, c0⟩, p0, l0, hv⟩
+              (by rw [hlen]; omega) (Nat.le_refl _) hbase0 hc0 ⟨hb0, ⟨n0, c0⟩, hseen0, hlive0, l0, hv⟩
       obtain ⟨s', hs'⟩ := hsucc
       show ∃ res, (match addSucc E n (s.popTake nt key e h') e.2 nt with
         | none => none
@@ -208,9 +219,9 @@ theorem popLoop_total (H : OHyp E rank Good) {L Al A : Nat} (T : THyp E L Al A) 
       rw [hs']
       exact ⟨_, rfl⟩
 
-theorem queryInited_total (H : OHyp E rank Good) {L Al A : Nat} (T : THyp E L Al A) {B : Nat} {nt : UNT U}
-    (Lw : Low E rank (rank nt) B) (n : Nat) (s : St U π) (p : Option Prog) (hn : B + A + 4 ≤ n) (hbase : Base E s)
-    (hc : CacheC s) (hinit : s.initS.contains nt = true) (hpre : OPre E rank (.query nt p) s) :
+theorem queryInited_total (H : OHyp E rank Good) (hnf : ∀ p, E.filter p = true) {L Al A : Nat} (T : THyp E L Al A) {B : Nat}
+    {nt : UNT U} (Lw : Low E rank (rank nt) B) (n : Nat) (s : St U π) (p : Option Prog) (hn : B + A + 4 ≤ n)
+    (hbase : Base E s) (hc : CacheC s) (hinit : s.initS.contains nt = true) (hpre : OPre E rank (.query nt p) s) :
     ∃ res, query E n s nt p = some res := by
   cases n with
   | zero => omega
@@ -221,11 +232,11 @@ theorem queryInited_total (H : OHyp E rank Good) {L Al A : Nat} (T : THyp E L Al
     | some r => exact ⟨_, rfl⟩
     | none =>
       simp only
-      obtain ⟨h1, h2, h3⟩ := hpre
+      obtain ⟨h1, h2, h3, h4⟩ := hpre
       have hn2 : NTInv E s nt ∧ CInv E rank s nt none 0 := by
         rcases h2 with hu | hn2
         · rw [hu.1] at hinit; cases hinit
         · exact hn2
-      exact popLoop_total H T Lw n s p (by omega) hbase hc hl ⟨h1, hn2, h3⟩
+      exact popLoop_total H hnf T Lw n s p (by omega) hbase hc hl ⟨h1, hn2, h3, h4⟩
 
 end PS.UHS
